@@ -39,6 +39,7 @@ def run(prog, chk):
     chk.rule(prev_point, prog, chk)
     chk.rule(identical_operands, prog, chk)
     chk.rule(gap_is_a_number, prog, chk)
+    chk.rule(ratio_needs_percent_sign, prog, chk)
     from props import C11
     chk.rule(C11.axis_consistency, prog, chk)  # dx / dy and coordinates never cross axes (shared with C11)
     chk.rule(C11.emission_algebra, prog, chk)  # the position that was worked out is written as the element's native geometry
@@ -317,6 +318,51 @@ def identical_operands(prog, chk):
                 bad.append(body.where(bb, t.get("line")))
     chk.floor("A16.min-max-operands", n, 20, "f32::min/max call in the geometry code")
     chk.ob(not bad, "A16.min-max-operands", "geometry", "src/element.rs", f"none of the {n} min/max calls in the geometry code compares an operand with itself", f"min/max of an operand with itself at {bad}: one of the two intended operands is ignored (e.g. `y2.max(y2)` for a line drawn upwards)")
+
+
+def ratio_needs_percent_sign(prog, chk):
+    """a Length is a proportion only when it is written with `%`: `Length::Ratio` is built on the way that found the
+    per cent sign and on no other (`0.5` is half a user unit, not half of the reference extent)"""
+    b = prog.maybe_body("<svgdx::position::Length as std::str::FromStr>::from_str")
+    if b is None:
+        chk.anchor_missing("A13.length-kind", "impl FromStr for Length not found")
+        return
+    chk.touch(b)
+    from sa import discharge as D
+
+    scope = [b] + list(prog.closures_of(b))
+    ratios = [(bd, x) for bd in scope for x, i, s_ in bd.all_stmts() if s_.get("rv", {}).get("k") == "aggr" and str(s_["rv"].get("adt", "")).endswith("position::Length") and s_["rv"].get("variant") == "Ratio"]
+    if not ratios:
+        chk.undecided("A13.length-kind", "Length::from_str", b.where(), "no Length::Ratio is built in Length::from_str itself: how a proportion is recognised is not read here")
+        return
+    bad = []
+    for (bd, x) in ratios:
+        ok = False
+        for (a, tgt) in D.dominating_edges(bd, x):
+            ta = bd.term(a)
+            if ta["k"] != "switch":
+                continue
+            sd = R.switch_discr_place(bd, a)
+            src = None
+            if sd is not None and not sd[0][1]:
+                d = bd.single_def(sd[0][0])
+                src = d[2] if d and d[1] == R.TERM and "fn" in d[2] else None
+                some_edge = tgt in [t_ for v_, t_ in ta["vals"] if v_ == 1] or (tgt == ta["otherwise"] and any(v_ == 0 for v_, _t in ta["vals"]))
+            else:
+                o = R.origin(bd, ta["op"], carriers={})
+                src = o[2] if o[0] == "call" and "fn" in o[2] else None
+                tt, ft = R.switch_targets_bool(ta)
+                some_edge = tgt == tt
+            if src is None or not some_edge:
+                continue
+            last = Callee(src["fn"]).path.split("::")[-1]
+            if last in ("strip_suffix", "ends_with", "split_once", "rsplit_once", "find", "rfind", "contains") and len(src["args"]) > 1:
+                p_ = R.origin(bd, src["args"][1], carriers={})
+                if p_[0] == "const" and (p_[1].get("char") == "%" or p_[1].get("str") == "%"):
+                    ok = True
+        if not ok:
+            bad.append(bd.where(x))
+    chk.ob(not bad, "A13.length-kind", "Length::from_str", b.where(), "Length::Ratio is built only where the `%` sign was found", f"Length::from_str builds a Ratio at {bad[:2]} without having found a `%`: a plain number is taken as a proportion of the reference extent (`wh=\"#a 0.5\"` gives half the size of #a instead of its size + 0.5)")
 
 
 def gap_is_a_number(prog, chk):
